@@ -40,6 +40,9 @@ def main():
         rc0, o0 = sh('/venv/bin/python %s' % demo, cwd=wt, env=env)
         res['demo_passes_without'] = (rc0 == 0)
         rc, out = sh('git apply %s' % patch, cwd=wt)
+        if rc != 0:
+            # a later fix: commit may have moved or touched a context line: retry with some fuzz
+            rc, out = sh('patch -p1 -F3 -s --no-backup-if-mismatch < %s' % patch, cwd=wt)
         res['applies'] = (rc == 0)
         rc1, o1 = sh('/venv/bin/python %s' % demo, cwd=wt, env=env)
         res['demo_fails_with'] = (rc1 != 0)
